@@ -10,6 +10,8 @@ cd $WT && git checkout -q -- . && git clean -fdq
 DEMO=$(ls $SEED/*_test.go 2>/dev/null | head -1)
 PKG=nsqd
 grep -q "^package nsqlookupd" "$DEMO" 2>/dev/null && PKG=nsqlookupd
+PD=$(jq -r '.package_dir // empty' $SEED/meta.json 2>/dev/null)
+[ -n "$PD" ] && PKG=${PD#./}
 git apply $SEED/patch.diff || { echo "patch does not apply" > $SEED/log/confirm.txt; exit 1; }
 if [ -z "${SKIP_CONFIRM:-}" ]; then
 go build ./... > $SEED/log/build.txt 2>&1 && echo "build: ok" > $SEED/log/confirm.txt || echo "build: FAILED" > $SEED/log/confirm.txt
